@@ -388,7 +388,10 @@ func (x *c19Run) open(si int) {
 		ints[i] = int(b)
 	}
 	st.up.ev = append(st.up.ev, c19IOEv{K: "w", B: ints})
-	if !c19Wait(5*time.Second, func() bool { return ss.server.getStreamById(cst.id) != nil || ss.server.IsClosed() }) {
+	// (after listener Close the adapter Closes a conn nobody can accept: the client then sees its stream closed)
+	if !c19Wait(5*time.Second, func() bool {
+		return ss.server.getStreamById(cst.id) != nil || ss.server.IsClosed() || (x.lclosed && !cst.IsOpen())
+	}) {
 		x.fail("a stream opened by the client did not reach the server session within 5s")
 	}
 	time.Sleep(25 * time.Millisecond) // let the accept goroutine wrap it and reach its select
@@ -810,6 +813,15 @@ func c19Scenario(id int, seed uint64, dir string) c19Case {
 			exps[si] = e
 		}
 		// sessions expected to end: wait for them (generously); the others: give them time to end wrongly
+		// (a session with a conn that was never delivered used to stay pinned: give it 1.5 s, not 4)
+		c19Wait(1500*time.Millisecond, func() bool {
+			for si, ss := range x.sess {
+				if exps[si].wantClosed && !ss.server.IsClosed() {
+					return false
+				}
+			}
+			return true
+		})
 		c19Wait(4*time.Second, func() bool {
 			for si, ss := range x.sess {
 				if exps[si].wantClosed && !exps[si].undelivered && !ss.server.IsClosed() {
@@ -873,7 +885,8 @@ func c19Scenario(id int, seed uint64, dir string) c19Case {
 	return c
 }
 
-// the history of the finding, run deterministically: one conn left in the backlog at listener Close
+// REGRESSION scenarios (ids 0 and 1) of the repaired defect C19:undelivered-wrapper-pins-session-after-listener-close,
+// run deterministically: one conn left in the backlog at listener Close / one conn dropped by the delivery select
 func c19Pinned(id int, dir string, lostToSelect bool) c19Case {
 	t0 := time.Now()
 	c := c19Case{ID: id, Seed: 0, Backlog: 1}
@@ -900,7 +913,7 @@ func c19Pinned(id int, dir string, lostToSelect bool) c19Case {
 	for _, st := range x.sess[0].streams {
 		x.clientClose(st)
 	}
-	time.Sleep(700 * time.Millisecond)
+	c19Wait(1500*time.Millisecond, func() bool { return x.sess[0].server.IsClosed() })
 	final := []bool{x.sess[0].server.IsClosed()}
 	if !final[0] {
 		x.fail("KNOWN: listener closed, every conn handed out by Accept closed, but a conn that was never delivered (left in the backlog / dropped by the select) pins the server session open")
